@@ -1302,6 +1302,13 @@ export class TupleRuntype extends BaseRuntype {
           popPath(ctx);
         }
       }
+    } else {
+      // validate() rejects surplus items of a tuple without rest element: say so
+      for (let i = idx; i < input.length; i++) {
+        pushPath(ctx, `[${i}]`);
+        acc.push(...buildError(ctx, "expected no more items in tuple", input[i]));
+        popPath(ctx);
+      }
     }
 
     return acc;
